@@ -360,10 +360,10 @@ class symeig_torchfcn(torch.autograd.Function):
             # Based on test cases, complex datatype is more likely to suffer from
             # singularity error when doing the inverse. Therefore, I add a small
             # offset here to prevent that from happening
-            if torch.is_complex(B):
-                evals_offset = evals + 1e-14
-            else:
-                evals_offset = evals
+            # The same happens for real datatypes whenever the shifted matrix is exactly
+            # singular in floating point (e.g. a diagonal A), so the offset is applied to all
+            # datatypes, relative to the magnitude of the eigenvalue
+            evals_offset = evals + 1e-14 * torch.clamp(evals.abs(), min=1.0)
 
             with A.uselinopparams(*params):
                 gevecs = solve(A, -B, evals_offset, M, bck_options=ctx.bck_config,
